@@ -58,6 +58,11 @@ class Cur(object):
     exc = None
 
 
+PRIOR = ['export', 'tigerxml', 'terminals', 'numbering', 'extract', 'analysis']
+PRIOR_PARAMS = [{}, {'gf': True}, {'export_four': True},
+                {'gf': True, 'gf_separator': '='}, {'terminals_pos': True}]
+
+
 def _fail(mech, detail):
     Cur.ctx.fail('C02:' + mech, Cur.case, detail)
 
@@ -220,6 +225,32 @@ def run_writer(ctx, case):
     stream = probe.RecordingStream()
     TO = R.treeoutput
     exc = None
+    # in a quarter of the cases something has looked at the tree before: it was
+    # written to the same stream in another format, numbered, analysed, or a
+    # grammar was extracted from it (none of which is documented to change it)
+    import json
+    import zlib
+    h = zlib.crc32(json.dumps(case, sort_keys=True, default=str)
+                   .encode('utf-8'))
+    if h % 4 == 0:
+        prior = PRIOR[(h // 4) % len(PRIOR)]
+        try:
+            with common.captured():
+                if prior in ('export', 'tigerxml', 'terminals'):
+                    getattr(TO, prior)(live, stream, **PRIOR_PARAMS[
+                        (h // 64) % len(PRIOR_PARAMS)])
+                elif prior == 'numbering':
+                    TO.compute_export_numbering(live)
+                elif prior == 'extract':
+                    R.grammar.extract(live, {}, {})
+                else:
+                    R.treeanalysis.gap_degree(live)
+                    for cls in R.treeanalysis.TASKS:
+                        cls().run(live)
+        except Exception:
+            pass    # judged where that function is the subject
+        stream.mark()
+        ctx.stratum('tree was looked at before it is written (%s)' % prior)
     try:
         with common.captured() as (out, err):
             getattr(TO, fmt + '_begin')(stream, **params)
